@@ -46,8 +46,10 @@ def write_evidence(pid, tier, seed, ses, wall, extra_cov=None, violations=0, lev
     if extra_cov: cov.update(extra_cov)
     ev = {'property_id': pid, 'tier': tier, 'seed': seed, 'level': level, 'coverage': cov,
           'assumptions': getattr(ses, 'assumptions', []), 'wall_s': round(wall, 2), 'violations': violations}
-    os.makedirs(os.path.join(VERIF, 'evidence'), exist_ok=True)
-    tmp = os.path.join(VERIF, 'evidence', pid + '.json.tmp'); open(tmp, 'w').write(json.dumps(ev, indent=1, default=str)); os.replace(tmp, os.path.join(VERIF, 'evidence', pid + '.json'))
+    # evidence/ describes runs against /repo itself; a run pointed at another checkout (VF_REPO: seeded changes in scratch worktrees) writes next to the caches instead
+    edir = os.path.join(VERIF, 'evidence') if build.REPO == '/repo' else os.path.join(build.CACHE, 'evidence-' + hashlib.sha1(build.REPO.encode()).hexdigest()[:8])
+    os.makedirs(edir, exist_ok=True)
+    tmp = os.path.join(edir, pid + '.json.tmp%d' % os.getpid()); open(tmp, 'w').write(json.dumps(ev, indent=1, default=str)); os.replace(tmp, os.path.join(edir, pid + '.json'))
 
 
 def main():
@@ -61,6 +63,15 @@ def main():
     if a.replay:
         return mod.replay(a.replay)
     t0 = time.time(); ses = Session(tier, seed); code = 0
+    # the contract tables describe the dependencies as configured at the time they were written and validated; a tree that configures them differently
+    # (another version, another feature of serde_json / base64 / time / ...) is outside what the contracts are known to describe
+    try:
+        base = json.load(open(os.path.join(VERIF, 'contracts_baseline.json'))); cur = build.dependency_fingerprint()
+        for k in sorted(set(base['dependencies']) | set(cur['dependencies'])):
+            if base['dependencies'].get(k) != cur['dependencies'].get(k) or (cur['resolved'] and base['resolved'].get(k) != cur['resolved'].get(k)):
+                ses.undecided.append('dependency `%s` is configured differently from the configuration the contracts were written for (%s / %s -> %s / %s): what the contracts say about it is not known to hold' % (
+                    k, base['dependencies'].get(k), base['resolved'].get(k), cur['dependencies'].get(k), cur['resolved'].get(k)))
+    except Exception as e: ses.notes.append('dependency fingerprint not compared: %s' % str(e)[:100])
     try:
         mod.run(ses)
     except (Unsupported, Undecided, RuntimeError) as e:
@@ -93,8 +104,9 @@ def main():
         if hit: print('KNOWN-FINDING: property=%s %s' % (pid, hit[0]['what']))
         else: new.append(v)
     for i, v in enumerate(new):
-        os.makedirs(os.path.join(VERIF, 'replays'), exist_ok=True)
-        path = os.path.join(VERIF, 'replays', '%s_%s_%d.json' % (pid, tier, i))
+        rdir = os.path.join(VERIF, 'replays') if build.REPO == '/repo' else os.path.join(build.CACHE, 'replays-' + hashlib.sha1(build.REPO.encode()).hexdigest()[:8])
+        os.makedirs(rdir, exist_ok=True)
+        path = os.path.join(rdir, '%s_%s_%d.json' % (pid, tier, i))
         json.dump({'property': pid, 'what': v['what'], 'detail': v['detail'], 'replay': v['replay'], 'key': v.get('key')}, open(path, 'w'), indent=1, default=str)
         print('VIOLATION property=%s replay=%s' % (pid, path)); print('   ', v['what'])
     if new: code = 1
